@@ -271,6 +271,7 @@ class Model:
                     tree = ast.parse(src, filename=path)
             except SyntaxError as e:
                 raise AnalysisError('E0.parse', rel, 'syntax error: %s' % e)
+            _canonicalise_imports(tree)
             mi = ModuleInfo(modname, rel, tree, src)
             self.modules[modname] = mi
             self.files_parsed.append(rel)
@@ -698,6 +699,72 @@ def seq_iteration(for_stmt):
             continue
         break
     return norm(seq), direction, want
+
+
+EXTERNAL_ROOTS = ('numpy', 'scipy', 'math', 'operator', 'functools', 'itertools', 'copy', 'string', 'warnings')
+
+
+def _canonicalise_imports(tree):
+    """The rules name library functions by their canonical dotted names (`numpy.zeros`, `scipy.linalg.qr`).  Import aliases
+    of external libraries are therefore undone on the AST: `import numpy as np` / `from numpy import zeros as z` make
+    `np.zeros` / `z` read as `numpy.zeros`.  Names that a function binds itself (parameters, assignments) are left alone."""
+    alias = {}
+    for st in tree.body:
+        if isinstance(st, ast.Import):
+            for al in st.names:
+                if al.asname and al.name.split('.')[0] in EXTERNAL_ROOTS and al.asname != al.name:
+                    alias[al.asname] = al.name
+        elif isinstance(st, ast.ImportFrom) and st.level == 0 and st.module and st.module.split('.')[0] in EXTERNAL_ROOTS:
+            for al in st.names:
+                if al.name != '*':
+                    alias[al.asname or al.name] = st.module + '.' + al.name
+    # `from numpy import linalg` style keeps working through the same table; plain `import numpy` needs nothing
+    alias = {k: v for k, v in alias.items() if k != v}
+    if not alias:
+        return
+
+    def dotted(v, like):
+        parts = v.split('.')
+        node = ast.Name(id=parts[0], ctx=ast.Load())
+        for p_ in parts[1:]:
+            node = ast.Attribute(value=node, attr=p_, ctx=ast.Load())
+        for n in ast.walk(node):
+            ast.copy_location(n, like)
+        return node
+
+    class T(ast.NodeTransformer):
+        def __init__(self):
+            self.shadow = [set()]
+
+        def visit_FunctionDef(self, f):
+            a = f.args
+            local = {x.arg for x in a.posonlyargs + a.args + a.kwonlyargs}
+            if a.vararg:
+                local.add(a.vararg.arg)
+            if a.kwarg:
+                local.add(a.kwarg.arg)
+            for n in ast.walk(f):
+                if isinstance(n, ast.Name) and isinstance(n.ctx, ast.Store):
+                    local.add(n.id)
+            self.shadow.append(local)
+            self.generic_visit(f)
+            self.shadow.pop()
+            return f
+
+        def visit_Name(self, n):
+            if isinstance(n.ctx, ast.Load) and n.id in alias and not any(n.id in sh for sh in self.shadow):
+                return dotted(alias[n.id], n)
+            return n
+
+    T().visit(tree)
+    # the import statements themselves: make the canonical root available (`import numpy`)
+    roots = sorted({v.split('.')[0] for v in alias.values()})
+    have = {al.name for st in tree.body if isinstance(st, ast.Import) for al in st.names if not al.asname}
+    extra = [ast.Import(names=[ast.alias(name=r_, asname=None)]) for r_ in roots if r_ not in have]
+    for e in extra:
+        e.lineno = e.end_lineno = 1
+        e.col_offset = e.end_col_offset = 0
+    tree.body[0:0] = extra
 
 
 def _terminates(body):
